@@ -43,11 +43,13 @@ def run(tier, seed, rep):
                     continue
                 defs.append(IG.table_def(did, mask, IG.ids_for(did) if did % 3 else idents2))
                 did += 1
+        # more variants than small-size special cases of library routines cover (40, two of them disabled, not at the end)
+        defs.append(IG.table_def(did, [1 if i in (2, 17) else 0 for i in range(40)], IG._Ids(IG.IDS))); did += 1
         by_id = {E["id"]: E for E in defs}
         files = {}
         for E in defs:
             n_en = sum(1 for v in E["variants"] if not v["dis"])
-            files[E["id"]] = IG.table_module(E, sz["depth"](n_en), sz["steps"])
+            files[E["id"]] = IG.table_module(E, sz["depth"](n_en) if n_en <= 8 else 1, sz["steps"])
         exe, failed = pipe.build_corpus("c10", files)
         report_compile_failures(rep, failed, by_id, files, "EnumTable")
         evs = pipe.run_driver(exe, PROP, {}, seed)
@@ -58,7 +60,7 @@ def run(tier, seed, rep):
                           dict(definition=d, event=ev, tlc=text, files={"def.rs": files.get(d["id"], "") if d else ""}))
         name, res, consts = mc.result()
         rep.add_model(name, res, consts)
-    evs = [e for e in evs if e.get("op") != "panic"]      # PANIC_FILTER: statistics only (panic events were judged by TLC above)
+    evs = [e for e in evs if e.get("op") == "tb"]      # statistics only (panic and alias events were judged by TLC above)
     rep.cov["programs"] = len(defs) - len(failed)
     rep.cov["evaluations"] = len(evs)
     rep.cov["distinct_nontrivial"] = len({(e["def"], e["call"], e["from"], e["k"], e["v"], tuple(e["slots"]), tuple(e.get("mask", []))) for e in evs})
